@@ -446,6 +446,13 @@ func (h *vfC19History) checkHost(t *rapid.T, host string) {
 
 		return
 	}
+	if len(asks) > 0 && asks[len(asks)-1].failed {
+		// the service answered SERVFAIL / REFUSED: what this check says is
+		// left open, what later checks say is not
+		vfC19.Class("history:upstream_failure_answer")
+
+		return
+	}
 	if (got && !canTrue) || (!got && !canFalse) {
 		h.fail(t, "Check(%q) = %t, but a fresh lookup gives %s", host, got, vclass)
 	}
@@ -684,7 +691,10 @@ func TestVFC19CacheHistory(t *testing.T) {
 					h.mutate(t)
 				case kind == "fail":
 					h.ups.failNext = true
-					h.trace = append(h.trace, "next upstream exchange fails")
+					// the service is unreachable, or it answers that it cannot
+					// answer: either way it has said nothing about any hash
+					h.ups.failRcode = rapid.SampledFrom([]int{0, 0, dns.RcodeServerFailure, dns.RcodeRefused}).Draw(t, "fail_rcode")
+					h.trace = append(h.trace, fmt.Sprintf("next upstream exchange fails (rcode %d; 0 = error)", h.ups.failRcode))
 				default:
 					h.check(t)
 				}
